@@ -16,6 +16,7 @@ open MythVerif.Wsq
 def ownerLocked : OPc → Bool
   | .po4 _ | .po5 _ _ | .po5b _ _ | .po6 _ | .po7 | .po8 | .po9 => true
   | .po5c _ _ | .po5d _ => true
+  | .assertFail | .cl1 | .cl2 | .cl3 => true
   | .stuckL | .pt1 _ | .pt6 _ | .pt7 _ _ | .pt8 _ _ | .pt9 => true
   | .stuck | .pub _ | .pum _ _ | .pus _ _ | .puv _ _ | .pux _ _ | .pt2 _ | .pt3 _ _ | .pt4 _ _ | .pt5 _ _ => true
   | _ => false
@@ -30,7 +31,7 @@ def thiefLocked : TPc → Bool
 /-- the owner is between operations or at the start of one: its buffer may still hold the
     stores of the last push -/
 def carry : OPc → Bool
-  | .idle | .pu0 _ | .pu0f _ _ | .pq | .po1 | .ptl _ => true
+  | .idle | .pu0 _ | .pu0f _ _ | .pq | .po1 | .ptl _ | .cll => true
   | _ => false
 
 /-- program counters at which a thief / passer may have buffered stores -/
@@ -50,7 +51,7 @@ def notTrans : TPc → Bool
     `top` / `base` lag behind the ghosts until the buffer has drained (at the latest at the unlock
     fence); the memory-side window is complete there (nobody else may look) -/
 def resetting : OPc → Bool
-  | .po8 | .po9 => true
+  | .po8 | .po9 | .cl2 | .cl3 => true
   | .pus _ _ | .puv _ _ | .pux _ _ | .pt4 _ _ | .pt5 _ _ | .pt6 _ | .pt7 _ _ | .pt8 _ _ | .pt9 => true
   | _ => false
 
@@ -126,6 +127,13 @@ def RcPre (buf suf : List Sto) (top lb lt sh : Int) : Prop :=
 def RcShape (buf : List Sto) (top base lb lt sh : Int) : Prop :=
   RcPre buf [] top lb lt sh ∨ (buf = [] ∧ sh = 0 ∧ top = lt ∧ base = lb)
 
+/-- clear after its store of `base` -/
+def Cl2Shape (bufO : List Sto) (base h : Int) : Prop := bufO = [.base h] ∨ (bufO = [] ∧ base = h)
+
+/-- clear after its store of `top` -/
+def Cl3Shape (bufO : List Sto) (top base h : Int) : Prop :=
+  bufO = [.base h, .top h] ∨ (bufO = [.top h] ∧ base = h) ∨ (bufO = [] ∧ top = h ∧ base = h)
+
 /-- a thief's increment of `base` is buffered (not visible: `tr = false`) or drained (`tr = true`) -/
 def TkfShape (buf : List Sto) (tr : Bool) (b : Int) : Prop :=
   (buf = [.base (b + 1)] ∧ tr = false) ∨ (buf = [] ∧ tr = true)
@@ -197,6 +205,11 @@ structure Inv (s : St) : Prop where
   pt9   : s.opc = .pt9 →
             (∃ e, RcPre s.bufO [.ptr (s.lb + s.sh - 1) (some e), .baseI (s.lb + s.sh - 1) e] s.top s.lb s.lt s.sh) ∨
             (s.sh = 0 ∧ s.top = s.lt ∧ s.base = s.lb ∧ InsShape s.bufO s.ptr s.lb)
+  -- clear
+  asF   : s.opc = .assertFail → s.bufO = [] ∧ s.top = s.lt
+  cl1   : s.opc = .cl1 → s.bufO = [] ∧ s.top = s.lt
+  cl2   : s.opc = .cl2 → s.lt = s.lb ∧ s.lb = s.size / 2 ∧ s.sh = 0 ∧ Cl2Shape s.bufO s.base (s.size / 2)
+  cl3   : s.opc = .cl3 → s.lt = s.lb ∧ s.lb = s.size / 2 ∧ s.sh = 0 ∧ Cl3Shape s.bufO s.top s.base (s.size / 2)
   -- thieves
   tbufE : ∀ p, mayBuf (s.tpc p) = false → s.bufT p = []
   tkf   : ∀ p b, s.tpc p = .tkf b → s.lb = b ∧ TkfShape (s.bufT p) s.tr b
